@@ -8,16 +8,21 @@ UNITS_LOCAL = {"C08": [
     Unit("histories", ["harness/C08_histories.cpp"],
          flags=ASAN, env=_ENV, opt="-O1", engine="seqmc",
          budget={"quick": 100, "thorough": 1000},
-         rule=("every history of 1..6 (thorough 1..7) enabled operations, shortest first, over a pool of 2 heap objects (obj0 a Base, obj1 a Derived:Base, both counting destructor runs) and 3 heap-allocated handle slots "
-               "(h0,h1 IntrusivePtr<Base>, h2 Ref<Derived>), each replayed on fresh objects inside a forked ASan+UBSan shard; alphabet of 45: "
+         rule=("every history of 1..6 (thorough 1..7) enabled operations, shortest first, over a pool of 2 heap objects (obj0 a Node:Base, obj1 a Derived:Base, both counting destructor runs and both "
+               "owning a member handle `IntrusivePtr<Base> next`) and 3 heap-allocated handle slots (h0,h1 IntrusivePtr<Base>, h2 Ref<Derived>), each replayed on fresh objects inside a forked ASan+UBSan shard; alphabet of 65: "
                "create object k, creator refDec / refInc (creator holds 0..2 references), per slot default-construct, construct from raw k / from null raw, copy-construct from the other Base slot, move-construct, "
-               "converting construct Base<-Derived handle, copy-assign (incl. to itself), move-assign (incl. to itself), assign converted Derived handle, assign raw k, assign null, destroy slot. "
-               "After every step: destructor-run counters say destroyed exactly once and exactly at the step where the reference model (creator references + handles pointing at the object) reached 0, "
-               "useCount() == model count for every live object, every handle's ptr / -> / bool / * name the object the model says, and (per newly reached history) ==, !=, < of all Base handle pairs agree with pointer identity. "
-               "Teardown of every history (destroy remaining handles, release creator references) is checked the same way and must destroy everything. "
+               "converting construct Base<-Derived handle, copy-assign (incl. to itself), move-assign (incl. to itself), assign converted Derived handle, assign raw k, assign null, destroy slot; "
+               "objects owning handles: h_i = new obj_k with the creator reference dropped (the handle is the only owner), obj_k.next = h_j (both j) / = null, "
+               "h_i = h_j->next for all i,j in {0,1} (i==j is the list walk that releases the object holding the source handle), h_i = h_j->next.ptr likewise, copy-construct and move-construct h_i from h_j->next. "
+               "Reference model: count = creator references + slots + member handles of live objects pointing at the object; an object whose count reaches 0 dies and releases its member (cascade, cycles stay alive). "
+               "After every step: destructor-run counters say destroyed exactly once and exactly at the step where the model count reached 0 (directly or by cascade), useCount() == model count for every live object, "
+               "every slot's ptr / -> / bool / * and every live object's member name the object the model says, and (per newly reached history) ==, !=, < of all Base handle pairs agree with pointer identity. "
+               "Teardown of every history (creator re-takes a reference to each live object, clears the members, destroys the slots, releases its references) is checked the same way and must destroy everything. "
+               "Symmetry pruning: while h0 and h1 are both unconstructed only h0 may be constructed (they are two names for the same kind of slot). "
                "Two histories are distinct when their operation sequences differ; distinct outcomes = distinct (operation, resulting model state, which objects died)."),
          assumptions=["the creator only calls refDec for references it holds (creation or its own refInc); releasing somebody else's reference is misuse outside the statement",
                       "moving a handle onto itself may leave it null or unchanged (the statement fixes neither); likewise a moved-from handle may be null or keep its object as long as useCount() agrees; the enumeration follows 'null', which is what the tree does - a tree that keeps the object is reported as a cut history, not a violation",
-                      "objects do not contain handles (move-assignment from a handle stored inside the object being released is outside the statement)",
+                      "MOVE-assignment from a handle stored inside the object being released is outside the statement and not in the alphabet (copy-assignment and raw-pointer assignment from such a handle are)",
+                      "a member handle is only assigned while its object has an owner outside the member handles (creator reference or slot): otherwise the assignment could release the object the destination lives in, which is outside the statement",
                       "comparisons are checked between the two IntrusivePtr<Base> slots and of the Derived handle with itself"]),
 ]}
